@@ -37,13 +37,13 @@ def env_sched_c01():
 
 def env_sched_c07():
     s = []
-    for a in (1, 2, 3):
+    for a in (1, 2, 1000):
         for dt in (1, 2.5):
             s.append((dt, a, F, 'log', 0))
     s.append((0, 1, F, 'log', 0))
     s.append((1, 2, PP, 'log', 0))
     for k in ('pause', 'unpause', 'cancel'):
-        s.append((1, 3, PP, k, 1))          # asset 3's action pauses/resumes/cancels asset 1 from inside
+        s.append((1, 1000, PP, k, 1))       # asset 1000's action pauses/resumes/cancels asset 1 from inside
     s.append((0.5, 1, F, 'pause', 1))       # an action that pauses its own asset
     s.append((0.5, 2, F, 'follow', 1))
     return s
@@ -70,7 +70,7 @@ class C01(Check):
 
     def jobs(self, tier):
         D = 4 if tier == 'quick' else 5
-        params = {'depth': D, 'sched': env_sched_c01(), 'assets': [1, 2], 'runs': [0, 1, 2.5], 'system': True}
+        params = {'depth': D, 'sched': env_sched_c01(), 'assets': [1, 2], 'runs': [-1, 0, 1, 2.5], 'system': True}
         # every fork-derived terminal path (up to 4000 per partition) is re-run linearly through the real System.simulate()
         jobs = split_first('env', f'ENV-C01[D{D}]', params, e2=4000, max_states=3000000, max_seconds=3000,
                            max_terminal_paths=4000)
@@ -103,7 +103,7 @@ class C07(Check):
 
     def jobs(self, tier):
         D = 5 if tier == 'quick' else 6
-        params = {'depth': D, 'sched': env_sched_c07(), 'assets': [1, 2, 3], 'runs': [1],
+        params = {'depth': D, 'sched': env_sched_c07(), 'assets': [1, 2, 1000], 'runs': [1],
                   'ext': ['pause', 'unpause', 'cancel', 'step']}
         jobs = split_first('env', f'ENV-C07[D{D}]', params, e2=200, max_states=3000000, max_seconds=3000)
         # longer sequences over a reduced alphabet (two assets, one priority, plain actions)
@@ -116,7 +116,7 @@ class C07(Check):
 
 RM_ADDS = [['a', 1], ['a', -1], ['a', -2], ['b', 1], ['b', -1], ['n', 1], ['n', -3], ['a', 0]]
 RM_REQUESTS = [{'a': 1}, {'a': 2}, {'a': 1, 'b': 1}, {'b': 1, 'a': 2}, {'a': 0}, {}, {'a': 1, 'b': -1}, {'b': -1, 'a': 1},
-               {'a': -1}, {'zz': 1}, {'a': 1, 'zz': 0}, {'a': 1, 'zz': 1}]
+               {'a': -1}, {'zz': 1}, {'a': 1, 'zz': 0}, {'a': 1, 'zz': 1}, {'zz': 0, 'b': 1}]
 RM_RELEASES = [None, {'a': 1}, {'a': 5}, {'zz': 1}, {'a': 1, 'zz': 0}, {'a': -1}, {'a': 0}, {'b': 1}, {'a': 1, 'b': 5}, {}]
 
 
@@ -163,7 +163,7 @@ class C10(Check):
         D = 5 if tier == 'quick' else 6
         params = {'depth': D, 'adds': [['a', 1], ['a', -1], ['b', 1], ['b', -1]],
                   'requests': [{'a': 1}, {'a': 2}, {'a': 1, 'b': 1}], 'pools': [['a', 2], ['b', 1]],
-                  'kinds': ['noop', 'take', 'again', 'give']}
+                  'kinds': ['noop', 'take', 'again', 'give', 'shared']}
         jobs = split_first('rmwait', f'RMWAIT-C10[D{D}]', params, e2=50, max_states=3000000, max_seconds=3000)
         # the same alphabet started from a non-initial state: pool 'a' over capacity (2 in use, capacity reduced to 1)
         p2 = dict(params)
@@ -190,7 +190,7 @@ class C12(Check):
     level_note = COMP_NOTE + (' "Start in request order" is read as the order in which the maintainer commits capacity to orders '
                               '(selection); START_WORK events of orders selected in one scan are tied at one instant and may execute '
                               'in either order (DESIGN.md section 5, C12).')
-    rule = ('for maintainer capacity 1, 2 and unlimited: every interleaving of <=D create_work_order calls (D=4 quick, 5 thorough) '
+    rule = ('for maintainer capacity 0, 1, 2 and unlimited: every interleaving of <=D create_work_order calls (D=4 quick, 5 thorough) '
             'over 3 targets x tags (needed capacity 0,1,2,5>total; durations 0, 0.5, 1, 1.5 -- one cycling per query; cost 0/3; '
             'one target requesting further orders from inside its start and end hooks, including itself) with every real event '
             'and every tie-break order among simultaneous starts/finishes; non-trivial = partition with overlapping orders, a '
@@ -204,7 +204,7 @@ class C12(Check):
     def jobs(self, tier):
         D = 4 if tier == 'quick' else 5
         jobs = []
-        for cap in (1, 2, None):
+        for cap in (0, 1, 2, None):
             params = {'depth': D, 'capacity': cap, 'targets': MAINT_TARGETS, 'requests': MAINT_REQUESTS}
             jobs += split_first('maint', f'MAINT-C12[cap{cap},D{D}]', params, e2=10, max_states=3000000, max_seconds=3000)
         return jobs
